@@ -14,6 +14,7 @@ def dispatch (comp : String) (j : Json) : Except String Json :=
   | "str" => strCmd j
   | "net" => netCmd j
   | "nettraj" => netTrajCmd j
+  | "netjac" => netJacCmd j
   | "paths" => pathsCmd j
   | "guard" => guardCmd j
   | "auto" => autoCmd j
